@@ -13,7 +13,7 @@
 
 2. hierarchy-shape lattice: small non-linear hierarchies (diamond, diamond with a leaf / with a tall side, double
    diamond, three-wide diamond, two roots joined, triangle, linear chain, mix-ins inside) x the subsets of classes
-   that override the field declared in the root(s) x what the override changes (default only, constraint and
+   that override the field (or Constant) declared in the root(s) x what the override changes (default only, constraint and
    default, constraint only, default removed, Constant).  The programs are built in the statement AST of
    harness/defgen.py, so they go through the same pipeline as the random hierarchies (model correspondence and
    spec clauses in Coq); in addition `mro_clauses` compares, on the implementation, the field map
@@ -379,7 +379,10 @@ def shape_program(shape, overriders, kind_of, root_default, tag):
         members = []
         if c.startswith("R") and not c.startswith("Rt"):
             members.append(_decl("name", {"t": "str", "min": None, "max": None, "pat": None}))
-            members.append(_decl("x", _int_field(), eqd=["lit", ("int", 1 + i)] if root_default else None))
+            if root_default == "const":
+                members.append({"name": "x", "kind": "const", "value": ("int", 5)})
+            else:
+                members.append(_decl("x", _int_field(), eqd=["lit", ("int", 1 + i)] if root_default else None))
         elif c in overriders:
             members.append(override_member(kind_of[c], i))
         elif i % 2:
@@ -403,7 +406,7 @@ def shape_programs(tier, seed):
             subsets = [s for s in subsets if len(s) <= 2 or len(s) >= len(non_roots) - 1]
         for sub in subsets:
             kinds = OVERRIDE_KINDS if tier != "quick" else [OVERRIDE_KINDS[j % len(OVERRIDE_KINDS)]]
-            roots = [True, False] if tier != "quick" else [j % 5 != 0]
+            roots = [True, False, "const"] if tier != "quick" else ["const" if j % 7 == 3 else j % 5 != 0]
             j += 1
             for k in kinds:
                 for rd in roots:
@@ -425,6 +428,8 @@ def mro_attribute(cls, n):
             return c, c.__dict__[n]
     return None, None
 
+
+K_CONST_SHADOW = "C14/inherited/constants-differ-from-mro-lookup"
 
 PROBE_VALUES = [0, 1, 4, 12, 17, 25, 36, 48, 59, 1000, -3, "s", "s1", "abcdefgh", 2.5, True]
 
@@ -466,6 +471,15 @@ def mro_clauses(prog, ns, report, base_values=None):
         own = {m["name"] for m in s["members"]}
         fmap = cls.get_all_fields_by_name()
         abstract_direct = "AbstractStructure" in s["bases"]
+        from typedpy.commons import Constant
+        for n in getattr(cls, "_constants", {}):
+            holder, attr = mro_attribute(cls, n)
+            n_eval += 1
+            if not isinstance(attr, Constant):
+                report(K_CONST_SHADOW,
+                       "%s._constants holds %r = %r, but attribute lookup along the MRO finds the %s declared in %s" % (
+                           cls.__name__, n, cls._constants[n], type(attr).__name__, getattr(holder, "__name__", None)),
+                       {"class": cls.__name__, "field": n})
         for n, fobj in fmap.items():
             holder, attr = mro_attribute(cls, n)
             n_eval += 1
